@@ -101,6 +101,24 @@ def cases(tier):
                                    'truth': [tv.get(i) for i in range(n)],
                                    'else': has_else, 'reref': rr,
                                    'syntax': s}
+    # chains that test the same name again in a later condition, with
+    # callables whose result changes from call to call: the later condition
+    # must reuse the value of the first evaluation
+    vals = (('', 'T'), ('T', ''), ('', ''), ('T', 'T'))
+    for n in (2, 3, 4):
+        for names in itertools.product((0, 1), repeat=n):
+            if len(set(names)) == n:
+                continue
+            for v0 in vals:
+                for v1 in vals:
+                    for has_else in (0, 1):
+                        for rr in (None, ('var', 0), ('if', 1)):
+                            idx += 1
+                            yield {'form': 'repeat', 'names': list(names),
+                                   'kinds': ['name'] * n,
+                                   'vals': [list(v0), list(v1)],
+                                   'truth': [], 'else': has_else,
+                                   'reref': rr, 'syntax': syntaxes[idx % 3]}
     for kind in KINDS:
         for truth in (0, 1):
             for rr in [None] + [(f, 0) for f in FORMS]:
@@ -136,10 +154,20 @@ def build(case):
     extra = reref(rr[0], rr[1]) if rr else []
     ns = {'s2': ['seq', 'list', [['lit', 10], ['lit', 20]]]}
     for i, k in enumerate(kinds):
-        if k != 'undef':
+        if k != 'undef' and case['form'] != 'repeat':
             ns['c%d' % i] = ['probe', i,
                              ['lit', ('T%d' % i) if truth[i] else '']]
-    if case['form'] == 'if':
+    if case['form'] == 'repeat':
+        ns = {'s2': ['seq', 'list', [['lit', 10], ['lit', 20]]]}
+        for k in (0, 1):
+            ns['c%d' % k] = ['probeseq', k,
+                             [['lit', v and v + str(j)]
+                              for j, v in enumerate(case['vals'][k])]]
+        branches = [[N('c%d' % k), [T('B%d' % i)] + extra]
+                    for i, k in enumerate(case['names'])]
+        els = ([T('E')] + extra) if case['else'] else None
+        nodes = [T('<'), ['if', branches, els], T('>')]
+    elif case['form'] == 'if':
         branches = [[cond_ref(k, i), [T('B%d' % i)] + extra]
                     for i, k in enumerate(kinds)]
         els = ([T('E')] + extra) if case['else'] else None
